@@ -176,3 +176,139 @@ Proof.
   - rewrite eval_not, He. reflexivity.
   - rewrite eval_is_null, He. reflexivity.
 Qed.
+
+(* ================= C22: operators report upstream errors ================= *)
+Definition reports_error (s : stream) : Prop := is_err (collect s) = true.
+
+Lemma in_err_collect s e : In (Err e) s -> exists e', collect s = Err e'.
+Proof.
+  intros H. apply collect_in_err in H. destruct (collect s) as [l|e']; [discriminate|]. exists e'. reflexivity.
+Qed.
+
+Theorem filter_propagates E p s e : In (Err e) s -> reports_error (op_filter E p s).
+Proof.
+  intros H. apply collect_in_err with (e := e). unfold op_filter. apply in_flat_map.
+  exists (Err e). split; [exact H | left; reflexivity].
+Qed.
+
+Theorem project_propagates E items s e : In (Err e) s -> reports_error (op_project E items s).
+Proof.
+  intros H. apply collect_in_err with (e := e). unfold op_project.
+  change (Err e : rrow) with ((fun it : rrow => match it with Err x => Err x | Ok r => project_row E r items [] end) (Err e)).
+  apply in_map. exact H.
+Qed.
+
+Theorem unwind_propagates E ex x s e : In (Err e) s -> reports_error (op_unwind E ex x s).
+Proof.
+  intros H. apply collect_in_err with (e := e). unfold op_unwind. apply in_flat_map.
+  exists (Err e). split; [exact H | left; reflexivity].
+Qed.
+
+Lemma distinct_go_keeps_err seen s e : In (Err e) s -> In (Err e) (distinct_go seen s).
+Proof.
+  revert seen. induction s as [|[r|e'] s IH]; intros seen H; [destruct H| |].
+  - destruct H as [H|H]; [discriminate|]. cbn [distinct_go].
+    destruct (existsb (row_same r) seen); [apply IH, H | right; apply IH, H].
+  - cbn [distinct_go]. destruct H as [H|H]; [left; exact H | right; apply IH, H].
+Qed.
+
+Theorem distinct_propagates s e : In (Err e) s -> reports_error (op_distinct s).
+Proof. intros H. apply collect_in_err with (e := e). apply distinct_go_keeps_err, H. Qed.
+
+Theorem union_propagates all a b e : In (Err e) a \/ In (Err e) b -> reports_error (op_union all a b).
+Proof.
+  intros H. assert (Hab : In (Err e) (a ++ b)) by (apply in_or_app; exact H).
+  unfold op_union. destruct all.
+  - apply collect_in_err with (e := e). exact Hab.
+  - apply distinct_propagates with (e := e). exact Hab.
+Qed.
+
+Lemma skip_keeps_err n s e : In (Err e) s -> In (Err e) (op_skip n s).
+Proof.
+  revert n. induction s as [|[r|e'] s IH]; intros n H; [destruct H| |].
+  - destruct H as [H|H]; [discriminate|]. destruct n; cbn [op_skip]; [right; exact H | apply IH, H].
+  - destruct n; cbn [op_skip]; [exact H|]. destruct H as [H|H]; [left; exact H | right; apply IH, H].
+Qed.
+
+Theorem skip_propagates n s e : In (Err e) s -> reports_error (op_skip n s).
+Proof. intros H. apply collect_in_err with (e := e). apply skip_keeps_err, H. Qed.
+
+(* LIMIT n pulls n items: an error among the items it pulls is reported (later rows are never evaluated) *)
+Theorem limit_propagates n s e : In (Err e) (firstn n s) -> reports_error (op_limit n s).
+Proof. intros H. apply collect_in_err with (e := e). exact H. Qed.
+
+Theorem orderby_propagates E items s e : In (Err e) s -> reports_error (op_orderby E items s).
+Proof.
+  intros H. destruct (in_err_collect s e H) as (e' & He'). unfold reports_error, op_orderby. rewrite He'. reflexivity.
+Qed.
+
+Lemma agg_collect_err E keys aggs s e :
+  In (Err e) s -> forall gs, exists e', agg_collect E keys aggs s gs = Err e'.
+Proof.
+  induction s as [|[r|e0] s IH]; intros H gs; [destruct H| |].
+  - destruct H as [H|H]; [discriminate|]. cbn [agg_collect].
+    destruct (agg_check E r aggs) as [u|e1]; [apply IH, H | exists e1; reflexivity].
+  - exists e0. reflexivity.
+Qed.
+
+Theorem aggregate_propagates E keys aggs s e : In (Err e) s -> reports_error (op_aggregate E keys aggs s).
+Proof.
+  intros H. destruct (agg_collect_err E keys aggs s e H []) as (e' & He').
+  unfold reports_error, op_aggregate. rewrite He'. reflexivity.
+Qed.
+
+(* errors the operators raise themselves on a row they consume *)
+Theorem project_error_reported E items s r e :
+  In (Ok r) s -> project_row E r items [] = Err e -> reports_error (op_project E items s).
+Proof.
+  intros H He. apply collect_in_err with (e := e). unfold op_project. rewrite <- He.
+  change (project_row E r items []) with ((fun it : rrow => match it with Err x => Err x | Ok r0 => project_row E r0 items [] end) (Ok r)).
+  apply in_map. exact H.
+Qed.
+
+Theorem unwind_error_reported E ex x s r e :
+  In (Ok r) s -> eval E r ex = Err e -> reports_error (op_unwind E ex x s).
+Proof.
+  intros H He. apply collect_in_err with (e := e). unfold op_unwind. apply in_flat_map.
+  exists (Ok r). split; [exact H|]. cbn [unwind_item]. rewrite He. left. reflexivity.
+Qed.
+
+Lemma keyed_err E items rows r e :
+  In r rows -> sort_keys E r items = Err e -> exists e', keyed E items rows = Err e'.
+Proof.
+  induction rows as [|x rows IH]; intros H He; [destruct H|]. cbn [keyed].
+  destruct H as [->|H].
+  - rewrite He. exists e. reflexivity.
+  - destruct (sort_keys E x items) as [ks|e1]; [|exists e1; reflexivity].
+    destruct (IH H He) as (e' & ->). exists e'. reflexivity.
+Qed.
+
+Theorem orderby_key_error_reported E items s r e :
+  In (Ok r) s -> sort_keys E r items = Err e -> reports_error (op_orderby E items s).
+Proof.
+  intros H He. unfold reports_error, op_orderby. destruct (collect s) as [rows|e0] eqn:Hc; [|reflexivity].
+  apply collect_ok_inv in Hc. subst s. apply in_map_iff in H. destruct H as (r' & Hr' & Hin). inversion Hr'; subst r'.
+  destruct (keyed_err E items rows r e Hin He) as (e' & ->). reflexivity.
+Qed.
+
+Lemma agg_collect_check_err E keys aggs s r e :
+  In (Ok r) s -> agg_check E r aggs = Err e -> forall gs, exists e', agg_collect E keys aggs s gs = Err e'.
+Proof.
+  induction s as [|[x|e0] s IH]; intros H He gs; [destruct H| |].
+  - cbn [agg_collect]. destruct H as [H|H].
+    + inversion H; subst x. rewrite He. exists e. reflexivity.
+    + destruct (agg_check E x aggs) as [u|e1]; [apply IH; assumption | exists e1; reflexivity].
+  - exists e0. reflexivity.
+Qed.
+
+Theorem aggregate_arg_error_reported E keys aggs s r e :
+  In (Ok r) s -> agg_check E r aggs = Err e -> reports_error (op_aggregate E keys aggs s).
+Proof.
+  intros H He. destruct (agg_collect_check_err E keys aggs s r e H He []) as (e' & He').
+  unfold reports_error, op_aggregate. rewrite He'. reflexivity.
+Qed.
+
+(* K-C22-exists: the EXISTS-subquery expression turns a consumed error into NULL *)
+Theorem exists_subquery_swallows :
+  exists (sub : stream) (e : rerr), In (Err e) (firstn 1 sub) /\ exists_subquery_value sub = VNull.
+Proof. exists [Err RArgValue], RArgValue. split; [left; reflexivity | reflexivity]. Qed.
